@@ -53,3 +53,37 @@ func init() {
 		Old:  "	if !enableNumKeys {\n		idx, err := strconv.ParseInt(in, 0, 64)",
 		New:  "	if enableNumKeys {\n		return namedField{in}\n	}\n	{\n		idx, err := strconv.ParseInt(in, 0, 64)\n		if err != nil || idx < 0 {\n			return namedField{in}\n		}"})
 }
+
+func init() {
+	// ---------------- C01 ----------------
+	addControl(control{Prop: "C01", Name: "arr-replace-case-dropped", Rule: "R01a", Kind: "mutant", Quick: true,
+		File: "merge.go", Old: "	case cfgReplaceValue, cfgArrReplaceValue:\n		return mergeConfigReplaceArr", New: "	case cfgReplaceValue:\n		return mergeConfigReplaceArr", Expect: "R01a/ucfg.mergeConfigArr/case cfgArrReplaceValue"})
+	addControl(control{Prop: "C01", Name: "prepend-and-append-swapped", Rule: "R01b", Kind: "mutant",
+		File: "merge.go", Old: "	case cfgArrPrepend:\n		return mergeConfigPrependArr(opts, to, from)\n\n	case cfgArrAppend:\n		return mergeConfigAppendArr(opts, to, from)", New: "	case cfgArrPrepend:\n		return mergeConfigAppendArr(opts, to, from)\n\n	case cfgArrAppend:\n		return mergeConfigPrependArr(opts, to, from)", Expect: "R01b/"})
+	addControl(control{Prop: "C01", Name: "prepend-wrong-order", Rule: "R01b", Kind: "mutant", Quick: true,
+		File: "merge.go", Old: "	fields.append(parent, a2)\n	fields.append(parent, a1)", New: "	fields.append(parent, a1)\n	fields.append(parent, a2)", Expect: "R01b/ucfg.mergeConfigPrependArr/signature prepend"})
+	addControl(control{Prop: "C01", Name: "replace-forgets-dictionary", Rule: "R01b", Kind: "mutant",
+		File: "merge.go", Old: "	var fields = fields{\n		d: to.fields.d,\n		a: make([]value, 0, len(a)),\n	}", New: "	var fields = fields{\n		a: make([]value, 0, len(a)),\n	}", Expect: "R01b/ucfg.mergeConfigReplaceArr/signature replace"})
+	addControl(control{Prop: "C01", Name: "nested-merge-with-fresh-options", Rule: "R01c", Kind: "mutant", Quick: true,
+		File: "merge.go", Old: "	if err := mergeConfig(opts, subOld, subV); err != nil {", New: "	if err := mergeConfig(makeOptions(nil), subOld, subV); err != nil {", Expect: "R01c/ucfg.mergeValues"})
+	addControl(control{Prop: "C01", Name: "merge-tail-from-zero", Rule: "R01b", Kind: "mutant",
+		File: "merge.go", Old: "to.fields.append(parent, arr[l:])", New: "to.fields.append(parent, arr)", Expect: "R01b/ucfg.mergeConfigMergeArr/append source tail"})
+	addControl(control{Prop: "C01", Name: "dict-cleared-under-arr-replace-too", Rule: "R01d", Kind: "mutant",
+		File: "merge.go", Old: "	if opts.configValueHandling == cfgReplaceValue {\n		old := to.fields.dict()", New: "	if opts.configValueHandling == cfgReplaceValue || opts.configValueHandling == cfgArrReplaceValue {\n		old := to.fields.dict()", Expect: "R01d/ucfg.mergeConfigDict/clear only under replace"})
+	addControl(control{Prop: "C01", Name: "old-wins-on-type-change", Rule: "R01e", Kind: "mutant",
+		File: "merge.go", Old: "	subV, err := v.toConfig(opts)\n	if err != nil {\n		return v, nil\n	}", New: "	subV, err := v.toConfig(opts)\n	if err != nil {\n		return old, nil\n	}", Expect: "R01e/ucfg.mergeValues"})
+	addControl(control{Prop: "C01", Name: "dispatch-as-if-chain", Rule: "R01a", Kind: "refactor", Quick: true,
+		File: "merge.go",
+		Old:  "	switch currHandling {\n	case cfgReplaceValue, cfgArrReplaceValue:\n		return mergeConfigReplaceArr(opts, to, from)\n\n	case cfgArrPrepend:\n		return mergeConfigPrependArr(opts, to, from)\n\n	case cfgArrAppend:\n		return mergeConfigAppendArr(opts, to, from)\n\n	case cfgDefaultHandling, cfgMergeValues:\n		return mergeConfigMergeArr(opts, to, from)\n	default:\n		return mergeConfigMergeArr(opts, to, from)\n	}",
+		New:  "	if currHandling == cfgReplaceValue || currHandling == cfgArrReplaceValue {\n		return mergeConfigReplaceArr(opts, to, from)\n	} else if currHandling == cfgArrPrepend {\n		return mergeConfigPrependArr(opts, to, from)\n	} else if currHandling == cfgArrAppend {\n		return mergeConfigAppendArr(opts, to, from)\n	} else if currHandling == cfgMergeValues {\n		return mergeConfigMergeArr(opts, to, from)\n	}\n	return mergeConfigMergeArr(opts, to, from)"})
+
+	// ---------------- C16 ----------------
+	addControl(control{Prop: "C16", Name: "named-key-cut-removed", Rule: "R16b", Kind: "mutant", Quick: true,
+		File: "merge.go", Old: "		if child == nil && idx < 0 && fieldName != \"*\" {\n			newOpts := *opts\n			newOpts.fieldHandlingTree = nil\n			return &newOpts, nil\n		}\n", New: "", Expect: "R16b/ucfg.fieldOptsOverride"})
+	addControl(control{Prop: "C16", Name: "field-append-installs-prepend", Rule: "R16a", Kind: "mutant", Quick: true,
+		File: "opts.go", Old: "FieldAppendValues = makeFieldOptValueHandling(cfgArrAppend)", New: "FieldAppendValues = makeFieldOptValueHandling(cfgArrPrepend)", Expect: "R16a/ucfg.init/twin AppendValues"})
+	addControl(control{Prop: "C16", Name: "dict-loop-looks-up-star", Rule: "R16c", Kind: "mutant",
+		File: "merge.go", Old: "opts, err := fieldOptsOverride(opts, k, -1)", New: "opts, err := fieldOptsOverride(opts, \"*\", -1)", Expect: "R16c/ucfg.mergeConfigDict"})
+	addControl(control{Prop: "C16", Name: "cut-written-with-early-return-order", Rule: "R16b", Kind: "refactor",
+		File: "merge.go", Old: "		if child == nil && idx < 0 && fieldName != \"*\" {", New: "		if named := idx < 0 && fieldName != \"*\"; named && child == nil {"})
+}
